@@ -397,13 +397,8 @@ fn udpdec(args: &[&str]) -> String {
                     out.push_str("END PENDING");
                     break;
                 }
-                Ok(Ok(d)) => {
-                    if d.is_empty() {
-                        out.push_str("END STOP");
-                        break;
-                    }
-                    out.push_str(&format!("D {} ", hex(&d)));
-                }
+                // the caller's loop (stream_to_udp) forwards every datagram, empty ones included
+                Ok(Ok(d)) => out.push_str(&format!("D {} ", hex(&d))),
                 Ok(Err(e)) => {
                     out.push_str(&format!("END ERR {}", class_of(&e)));
                     break;
@@ -828,6 +823,231 @@ fn authtls(args: &[&str]) -> String {
     })
 }
 
+
+// ------------------------------------------------------------------------------------------ end-to-end glue (C07, C15)
+/// an in-process AnyTLS server session running the REAL default handler (TcpProxyHandler: read_socks_addr,
+/// UDP routing, resolver cache, dial) on the other end of a duplex pipe
+async fn serve_real_session(half: tokio::io::DuplexStream) {
+    use anytls_rs::server::handler::{StreamHandler, TcpProxyHandler};
+    let (mut r, w) = tokio::io::split(half);
+    let padding = PaddingFactory::default();
+    let ph = anytls_rs::hash_password(PASSWORD);
+    if anytls_rs::authenticate_client(&mut r, &ph, &padding).await.is_err() {
+        return;
+    }
+    let (tx, mut rx) = mpsc::unbounded_channel::<Arc<Stream>>();
+    let mut session = Session::new_server(r, w, padding);
+    session.set_stream_callback(tx);
+    let session = Arc::new(session);
+    let s1 = session.clone();
+    tokio::spawn(async move {
+        let _ = s1.recv_loop().await;
+    });
+    let s2 = session.clone();
+    tokio::spawn(async move {
+        let _ = s2.process_stream_data().await;
+    });
+    while let Some(stream) = rx.recv().await {
+        let session = session.clone();
+        tokio::spawn(async move {
+            let handler = TcpProxyHandler::new();
+            let _ = handler.handle_stream(stream, session).await;
+        });
+    }
+}
+
+fn real_connector() -> anytls_rs::client::VerifConnector {
+    Arc::new(move || {
+        let (a, b) = tokio::io::duplex(1 << 20);
+        tokio::spawn(serve_real_session(b));
+        let (r, w) = tokio::io::split(a);
+        (Box::new(r) as BoxR, Box::new(w) as BoxW)
+    })
+}
+
+/// dial <tok>...   destination glue end to end: SOCKS-less client -> encoder -> frames -> real server handler ->
+/// resolver cache -> TcpStream::connect, observed at loopback listeners on distinct 127.0.0.k addresses.
+///   L:<k>:<slot>                 listener on 127.0.0.k, port of <slot> (slots are mapped to free ports)
+///   S:<namehex>:<k>:<slot>:<age> cache seed name -> 127.0.0.k:port(slot), filled <age> ms ago
+///   R:<hosthex|@k>:<slot>        create_proxy_stream((host, port(slot)));  @k = the literal 127.0.0.k
+/// output per R:  OK <k>:<slot> (which listener accepted) | OK none | ERR
+fn dial(args: &[&str]) -> String {
+    let toks: Vec<Vec<String>> = args
+        .iter()
+        .map(|a| a.split(':').map(|x| x.to_string()).collect())
+        .collect();
+    real_rt().block_on(async move {
+        use anytls_rs::util::dns_cache::dns_verif_hooks::{dns_cache_clear, dns_cache_seed};
+        dns_cache_clear().await;
+        // slots -> ports
+        let mut nslots = 0usize;
+        for t in &toks {
+            let s: usize = match t[0].as_str() {
+                "L" => t[2].parse().unwrap(),
+                "S" => t[3].parse().unwrap(),
+                _ => t[2].parse().unwrap(),
+            };
+            nslots = nslots.max(s + 1);
+        }
+        let accepted: Arc<Mutex<Vec<(u8, usize)>>> = Arc::new(Mutex::new(Vec::new()));
+        let mut ports = vec![0u16; nslots];
+        for slot in 0..nslots {
+            let ks: Vec<u8> = toks
+                .iter()
+                .filter(|t| t[0] == "L" && t[2].parse::<usize>().unwrap() == slot)
+                .map(|t| t[1].parse().unwrap())
+                .collect();
+            'retry: for _ in 0..50 {
+                let probe = std::net::TcpListener::bind("127.0.0.1:0").unwrap();
+                let p = probe.local_addr().unwrap().port();
+                drop(probe);
+                if ports.contains(&p) {
+                    continue;
+                }
+                let mut ls = Vec::new();
+                for k in &ks {
+                    match tokio::net::TcpListener::bind(format!("127.0.0.{}:{}", k, p)).await {
+                        Ok(l) => ls.push((*k, l)),
+                        Err(_) => continue 'retry,
+                    }
+                }
+                ports[slot] = p;
+                for (k, l) in ls {
+                    let acc = accepted.clone();
+                    tokio::spawn(async move {
+                        let mut keep = Vec::new();
+                        while let Ok((s, _)) = l.accept().await {
+                            acc.lock().unwrap().push((k, slot));
+                            keep.push(s);
+                        }
+                    });
+                }
+                break;
+            }
+        }
+        let client = test_client();
+        client.verif_set_connector(Some(real_connector()));
+        let mut out = String::new();
+        let mut keep_streams = Vec::new();
+        for t in &toks {
+            match t[0].as_str() {
+                "L" => {}
+                "S" => {
+                    let name = String::from_utf8(unhex(&t[1])).unwrap();
+                    let slot: usize = t[3].parse().unwrap();
+                    let sa: SocketAddr = format!("127.0.0.{}:{}", t[2], ports[slot]).parse().unwrap();
+                    dns_cache_seed(&name, vec![sa], Duration::from_millis(t[4].parse().unwrap())).await;
+                }
+                _ => {
+                    let host = if let Some(k) = t[1].strip_prefix('@') {
+                        format!("127.0.0.{}", k)
+                    } else {
+                        String::from_utf8(unhex(&t[1])).unwrap()
+                    };
+                    let slot: usize = t[2].parse().unwrap();
+                    let before = accepted.lock().unwrap().len();
+                    match tokio::time::timeout(
+                        Duration::from_secs(5),
+                        client.create_proxy_stream((host, ports[slot])),
+                    )
+                    .await
+                    {
+                        Ok(Ok((stream, session))) => {
+                            let mut who = None;
+                            for _ in 0..100 {
+                                {
+                                    let g = accepted.lock().unwrap();
+                                    if g.len() > before {
+                                        who = Some(g[g.len() - 1]);
+                                    }
+                                }
+                                if who.is_some() {
+                                    break;
+                                }
+                                tokio::time::sleep(Duration::from_millis(5)).await;
+                            }
+                            match who {
+                                Some((k, s)) => out.push_str(&format!("OK {}:{} ", k, s)),
+                                None => out.push_str("OK none "),
+                            }
+                            keep_streams.push((stream, session));
+                        }
+                        _ => out.push_str("ERR "),
+                    }
+                }
+            }
+        }
+        dns_cache_clear().await;
+        client.stop_session_pool_cleanup().await;
+        out
+    })
+}
+
+/// udpe2e <target 4|6> <size>...   lock-step echo through Client::create_udp_proxy and the real server handler:
+/// app --UDP--> local proxy socket --stream--> server --UDP--> echo target, and back.
+/// output per datagram: <size>:<t|f target got exactly it>:<t|f app got exactly it back>, then TARGETN=<datagrams seen by the target>
+fn udpe2e(args: &[&str]) -> String {
+    let v6 = args[0] == "6";
+    let sizes: Vec<usize> = args[1..].iter().map(|a| a.parse().unwrap()).collect();
+    real_rt().block_on(async move {
+        let bind = if v6 { "[::1]:0" } else { "127.0.0.1:0" };
+        let target = match tokio::net::UdpSocket::bind(bind).await {
+            Ok(t) => t,
+            Err(_) => return "NO-TARGET-SOCKET".to_string(),
+        };
+        let target_addr = target.local_addr().unwrap();
+        let seen: Arc<Mutex<Vec<Vec<u8>>>> = Arc::new(Mutex::new(Vec::new()));
+        let seen2 = seen.clone();
+        tokio::spawn(async move {
+            let mut buf = vec![0u8; 70000];
+            while let Ok((n, from)) = target.recv_from(&mut buf).await {
+                seen2.lock().unwrap().push(buf[..n].to_vec());
+                let _ = target.send_to(&buf[..n], from).await;
+            }
+        });
+        let client = test_client();
+        client.verif_set_connector(Some(real_connector()));
+        let proxy = match tokio::time::timeout(
+            Duration::from_secs(5),
+            client.create_udp_proxy("127.0.0.1:0", target_addr),
+        )
+        .await
+        {
+            Ok(Ok(a)) => a,
+            _ => return "NO-ASSOCIATION".to_string(),
+        };
+        let app = tokio::net::UdpSocket::bind("127.0.0.1:0").await.unwrap();
+        let mut out = String::new();
+        let mut buf = vec![0u8; 70000];
+        for (i, n) in sizes.iter().enumerate() {
+            let mut d = vec![0u8; *n];
+            for (j, b) in d.iter_mut().enumerate() {
+                *b = ((i * 131 + j * 7 + j / 251) & 255) as u8;
+            }
+            let before = seen.lock().unwrap().len();
+            if app.send_to(&d, proxy).await.is_err() {
+                out.push_str(&format!("{}:senderr ", n));
+                continue;
+            }
+            let back = tokio::time::timeout(Duration::from_millis(1500), app.recv_from(&mut buf)).await;
+            let app_ok = matches!(&back, Ok(Ok((m, _))) if buf[..*m] == d[..]);
+            let tgt_ok = {
+                let g = seen.lock().unwrap();
+                g.len() == before + 1 && g[before] == d
+            };
+            out.push_str(&format!(
+                "{}:{}:{} ",
+                n,
+                if tgt_ok { "t" } else { "f" },
+                if app_ok { "t" } else { "f" }
+            ));
+        }
+        out.push_str(&format!("TARGETN={}", seen.lock().unwrap().len()));
+        client.stop_session_pool_cleanup().await;
+        out
+    })
+}
+
 pub fn dispatch(drv: &str, args: &[&str]) -> Option<String> {
     match drv {
         "authsrv" => Some(authsrv(args)),
@@ -840,6 +1060,8 @@ pub fn dispatch(drv: &str, args: &[&str]) -> Option<String> {
         "socksreq" => Some(socksreq(args)),
         "socks" => Some(socks(args)),
         "authtls" => Some(authtls(args)),
+        "dial" => Some(dial(args)),
+        "udpe2e" => Some(udpe2e(args)),
         _ => None,
     }
 }
